@@ -2124,10 +2124,19 @@ class Builder:
         assert all(isinstance(q, Qubit) for q in qubit_futures)
 
         # Receivers of R-type requests need an array for IDs for the generated qubits.
-        virtual_qubit_ids = [q.qubit_id for q in qubit_futures]
+        single_comm_qubit: bool = (
+            self._hardware_config is not None
+            and self._hardware_config.comm_qubit_count == 1
+        )
+        if single_comm_qubit:
+            # As for K-type requests (see `sdk_epr_keep`): only ID 0 can receive a
+            # pair; each pair is then moved to the memory qubit of its handle.
+            virtual_qubit_ids = [0 for _ in qubit_futures]
+        else:
+            virtual_qubit_ids = [q.qubit_id for q in qubit_futures]
         qubit_ids_array = self.alloc_array(init_values=virtual_qubit_ids)  # type: ignore
 
-        wait_all = params.post_routine is None
+        wait_all = params.post_routine is None and not single_comm_qubit
 
         if reset_results_array:
             self._build_cmds_undefine_array(ent_results_array)
@@ -2136,6 +2145,11 @@ class Builder:
         self._build_cmds_epr_recv_rsp(
             qubit_ids_array, ent_results_array, wait_all, params
         )
+
+        if params.post_routine is None and single_comm_qubit:
+            self._build_cmds_wait_move_epr_to_mem(
+                params=params, ent_results_array=ent_results_array, role=EPRRole.RECV
+            )
 
         epr_results = deserialize_epr_keep_results(params, ent_results_array)
         return qubit_futures, epr_results
